@@ -4,6 +4,7 @@ All problems are plain pygradflow Problems written here (independent of the repo
 instances, which are loaded too).  Data are seeded; nothing uses global random state.
 """
 import importlib.util
+import os
 import itertools
 
 import numpy as np
@@ -215,7 +216,7 @@ def repo_instance(name):
              "rosenbrock": ("rosenbrock", "Rosenbrock")}
     f, cls = files[name]
     if f not in _REPO_CACHE:
-        spec = importlib.util.spec_from_file_location("verif_tp_" + f, "/repo/tests/pygradflow/%s.py" % f)
+        spec = importlib.util.spec_from_file_location("verif_tp_" + f, os.path.join(os.environ.get("VERIF_REPO", "/repo"), "tests/pygradflow/%s.py" % f))
         m = importlib.util.module_from_spec(spec)
         spec.loader.exec_module(m)
         _REPO_CACHE[f] = m
